@@ -18,6 +18,7 @@ LEVEL_TEXT = ("Held on every generated scenario of the run: 1-4 watched filters 
               "filters that have no matching live offer; at most 1+repetitions rounds; none after a round with nothing to ask")
 LEVEL_NOTE = ("trusts the round/live-offer model in this module and pv/refwire.py; an offer, stop or expiry closer than the clock "
               "resolution to a round makes that filter 'either' in that round")
+TIEBREAK_VARIANTS = True  # thorough tier: some shards run equal-deadline timers LIFO / in seeded random order
 RULE = (
     "filters drawn from a pool (exact, wildcard instance, wildcard major+minor, all-wildcard, second service); rounds R0 = start + "
     "draw, R(i+1) = R(i) + base * 2^i; 0-8 offer/stop events, each for a service matching one or more filters, TTL {1,2,infinite}, "
